@@ -15,7 +15,7 @@ CHECKS = {
  "C03": ("procsim+p2psim", "deterministic simulation: single-mutation byzantine gossip against the real verifiers, state-unchanged oracle decided by an independent verifier",
    "Every gossiped observation, heartbeat and re-observation request is judged by an independent verifier first; for rejected ones aggregation state, heartbeat table, outputs and store must be bit-identical before/after; includes cross-type replays, prefix confusion, truncation around the 34-byte floor, rotation of the set, the per-guardian cap. A small race-detector pass lets eight valid heartbeats from new peers hit the table in parallel just below the cap.", "3/C03"),
  "C13": ("procsim", "deterministic simulation with adversarial input histories; any recovered panic (or process death) is the violation",
-   "Every handler call and the real Run loop are executed under recover over adversarial histories (empty/oversized payloads, nil fields, inputs before the first set, empty sets, restarts, ticks of any length). A handler or Run loop that stops consuming its inputs (parked on a queue or on the shared guardian-set state, whose mutex is a channel lock in the simulated build) is reported as well; a race-detector pass feeds gossip from several goroutines while cleanup ticks fire.", "3/C13"),
+   "Every handler call and the real Run loop are executed under recover over adversarial histories (empty/oversized payloads, nil fields, inputs before the first set, empty sets, restarts, ticks of any length). A handler or Run loop that stops consuming its inputs (parked on a queue or on the shared guardian-set state, whose mutex is a channel lock in the simulated build) is reported as well; a race-detector pass feeds gossip and heartbeats from several goroutines while cleanup ticks fire. In half of the runs the node signs through the Cloud KMS signer's own DER conversion (only the gRPC call is stubbed).", "3/C13"),
  "C14": ("procsim", "deterministic simulation on a fake clock with a time-bounded retry/expiry model checked after every cleanup pass",
    "Cleanup passes at regular, jittered, threshold+-1ns and multi-day intervals on the synctest clock; retry cadence/content and entry lifetimes are compared with bounds taken from the statement. The Run loop is also cancelled and entered again on the same Processor (what a supervisor does), which must not lose pending entries.", "3/C14"),
 }
